@@ -48,6 +48,7 @@ def make_fa(case):
         salt=case["salt"],
         sensitive_words=list(WORDS) if words else None,
         as_numbers=list(case.get("asns") or ASNS) if asn else None,
+        reserved_words=list(case["reserved"]) if case.get("reserved") else None,
         preserve_suffix_v4=case.get("B", 8),
         preserve_suffix_v6=case.get("B", 8),
     )
@@ -58,11 +59,11 @@ def check_line(case, ev):
     fa, exc = guarded(make_fa, case)
     if exc is not None:
         return core.exc_finding(exc, case, "ctor/")
-    out, exc = guarded(core.run_io, fa, line + "\n")
+    out, exc = guarded(core.run_io, fa, line + "\n", bool(case.get("nonl")))
     feats = "".join("pinw"[i] if f else "-" for i, f in enumerate(case["features"]))
     low = line.lower()
     nt = (exc is None and out != line + "\n") or "$9$" in line or "$1$" in line or any(k in low for k in ("password", "secret", "key", "community"))
-    ev.case(line, nt, ["gen-" + case.get("gen", "?"), "features-" + feats, "salt-" + ("empty" if case["salt"] == "" else "juniper-char" if case["salt"][0] in J.POS else "other-first-char")])
+    ev.case(line, nt, ["gen-" + case.get("gen", "?"), "features-" + feats, "salt-" + ("empty" if case["salt"] == "" else "juniper-char" if case["salt"][0] in J.POS else "other-first-char")] + (["user-reserved-words"] if case.get("reserved") else []))
     if exc is not None:
         return core.exc_finding(exc, case, "line/")
     if not isinstance(out, str) or out.count("\n") != 1 or not out.endswith("\n"):
@@ -229,7 +230,7 @@ def _case(draw):
         asns = draw(st.sampled_from([["65000", " 65001"], ["065002", "65002"], ["123", "123"], ["7 ", "65001"], ["00", "0"]]))
         line = line + " " + draw(st.sampled_from(asns)).strip() + " " + draw(st.sampled_from(["65001", "065002", "0", "7"]))
         feats[3] = True
-    return {"line": line, "salt": draw(_salt), "features": feats, "undo": draw(st.integers(0, 5)) == 0, "B": draw(st.sampled_from([8, 8, 0, 32])), "gen": gen, "asns": asns}
+    return {"line": line, "salt": draw(_salt), "features": feats, "undo": draw(st.integers(0, 5)) == 0, "B": draw(st.sampled_from([8, 8, 0, 32])), "gen": gen, "nonl": draw(st.integers(0, 4)) == 0, "asns": asns, "reserved": draw(st.lists(st.sampled_from(WORDS + ASNS + (asns or []) + ["LabKey", "permit", "Zorgon-gw", "x"]), min_size=1, max_size=5, unique=True)) if draw(st.integers(0, 3)) == 0 else None}
 
 
 @st.composite
